@@ -9,6 +9,7 @@ import (
 	"go/ast"
 	"go/constant"
 	"go/token"
+	"strings"
 )
 
 func init() { items = append(items, emitC04) }
@@ -78,12 +79,12 @@ func emitC04(t *tr) {
 	okShape := true
 	var factor string
 	nFactor := 0
-	var improvGuard, cutoffShape int
+	var improvGuard int
 	ast.Inspect(fd.Body, func(n ast.Node) bool {
 		switch x := n.(type) {
 		case *ast.CallExpr:
 			if id, ok := x.Fun.(*ast.Ident); ok && id.Name == "currentlyInRenewalWindow" {
-				if len(x.Args) != 3 || selPath(x.Args[0]) != "leaf.NotBefore" || selPath(x.Args[1]) != "expiration" {
+				if len(x.Args) != 3 {
 					okShape = false
 					return true
 				}
@@ -95,16 +96,10 @@ func emitC04(t *tr) {
 					okShape = false
 				}
 			}
-			// cutoff := selectedTime.Add(-cfg.certCache.options.RenewCheckInterval)
-			if selPath(x.Fun) == "selectedTime.Add" && len(x.Args) == 1 {
-				if u, ok := x.Args[0].(*ast.UnaryExpr); ok && u.Op == token.SUB && selPath(u.X) == "cfg.certCache.options.RenewCheckInterval" {
-					cutoffShape++
-				}
-			}
 		case *ast.BinaryExpr:
 			// time.Until(expiration) < cfg.certCache.options.RenewCheckInterval*5
 			if x.Op == token.LSS && selPath(x.X) == "time.Until()" {
-				if m, ok := x.Y.(*ast.BinaryExpr); ok && m.Op == token.MUL && selPath(m.X) == "cfg.certCache.options.RenewCheckInterval" {
+				if m, ok := x.Y.(*ast.BinaryExpr); ok && m.Op == token.MUL && strings.HasSuffix(selPath(m.X), ".RenewCheckInterval") {
 					if f, ok := t.intOf(m.Y, "RenewCheckInterval factor"); ok {
 						factor = f
 						nFactor++
@@ -126,18 +121,15 @@ func emitC04(t *tr) {
 		return true
 	})
 	if !okShape || len(calls) != 3 || calls[0].cfg || !calls[1].cfg || calls[2].cfg {
-		t.errf("Config.certNeedsRenewal: expected currentlyInRenewalWindow(leaf.NotBefore, expiration, r) with r = literal, cfg.RenewalWindowRatio, literal (got %d calls)", len(calls))
+		t.errf("Config.certNeedsRenewal: expected three calls currentlyInRenewalWindow(_, _, r) with r = literal, cfg.RenewalWindowRatio, literal in this order (got %d calls)", len(calls))
 	} else {
 		t.p("Definition ari_emergency_ratio : Z * Z := (%s, %s)%%Z. (* 1st currentlyInRenewalWindow literal in certNeedsRenewal *)\n", calls[0].n, calls[0].d)
 		t.p("Definition imminent_ratio : Z * Z := (%s, %s)%%Z. (* 2nd currentlyInRenewalWindow literal in certNeedsRenewal *)\n", calls[2].n, calls[2].d)
 	}
 	if nFactor != 1 {
-		t.errf("Config.certNeedsRenewal: expected exactly one `time.Until(expiration) < cfg.certCache.options.RenewCheckInterval*K`")
+		t.errf("Config.certNeedsRenewal: expected exactly one `time.Until(...) < <...>.RenewCheckInterval*K`")
 	} else {
 		t.p("Definition imminent_interval_factor : Z := (%s)%%Z. (* time.Until(expiration) < RenewCheckInterval*K *)\n", factor)
-	}
-	if cutoffShape != 1 {
-		t.errf("Config.certNeedsRenewal: expected `selectedTime.Add(-cfg.certCache.options.RenewCheckInterval)` exactly once")
 	}
 	// informational (the model is hand-written with this guard; a missing guard is caught by
 	// the correspondence on the degenerate-window witnesses)
